@@ -504,4 +504,65 @@ theorem randCOk_sound {ws : List Wrapper} {r : RandC} (h : randCOk ws r = true) 
 
 theorem wrappers_all_ok : Generated.wrappers.all wrapperOk = true := by decide
 theorem randCs_all_ok : Generated.randCs.all (randCOk Generated.wrappers) = true := by decide
+/-! ### hidden Markov chain sampling -/
+theorem subtractSearch_ge (u : ℝ) : ∀ (l : List ℝ) (i0 i : Nat), subtractSearch u l i0 = some i → i0 ≤ i ∧ i < i0 + l.length
+  | [], _, _, h => by cases h
+  | p :: ps, i0, i, h => by
+    unfold subtractSearch at h
+    dsimp only at h
+    split at h
+    · simp only [Option.some.injEq] at h; subst h; simp
+    · have := subtractSearch_ge _ ps (i0 + 1) i h
+      simp only [List.length_cons]; omega
+
+theorem subtractSearch_none : ∀ (l : List ℝ) (u : ℝ) (i0 : Nat), 0 ≤ u → subtractSearch u l i0 = none → l.sum ≤ u
+  | [], _, _, hu, _ => by simpa using hu
+  | p :: ps, u, i0, _, h => by
+    unfold subtractSearch at h
+    dsimp only at h
+    split at h
+    · cases h
+    · rename_i hlt
+      simp only [ssub, ScalarReal.ofInt_eq, Int.cast_zero, ScalarReal.ltb_iff, not_lt] at hlt
+      have := subtractSearch_none ps _ (i0 + 1) hlt h
+      rw [List.sum_cons]; linarith
+
+theorem subtractSearch_decomp (x : ℝ) (post : List ℝ) : ∀ (pre : List ℝ) (u : ℝ) (i0 : Nat),
+    (∀ y ∈ pre, 0 ≤ y) → 0 ≤ u →
+    (subtractSearch u (pre ++ x :: post) i0 = some (i0 + pre.length) ↔ pre.sum ≤ u ∧ u < pre.sum + x)
+  | [], u, i0, _, hu => by
+    simp only [List.nil_append, subtractSearch, ssub, ScalarReal.ofInt_eq, Int.cast_zero, ScalarReal.ltb_iff,
+      List.length_nil, Nat.add_zero, List.sum_nil, zero_add]
+    by_cases h : u - x < 0
+    · simp only [h, if_true, true_iff]; exact ⟨hu, by linarith⟩
+    · simp only [h, if_false]
+      constructor
+      · intro hh; have := subtractSearch_ge _ _ _ _ hh; omega
+      · rintro ⟨_, h2⟩; exact absurd (by linarith) h
+  | y :: pre, u, i0, hpre, hu => by
+    have hy : 0 ≤ y := hpre y List.mem_cons_self
+    have hpre' : ∀ z ∈ pre, 0 ≤ z := fun z hz => hpre z (List.mem_cons_of_mem _ hz)
+    have hps : 0 ≤ pre.sum := List.sum_nonneg hpre'
+    simp only [List.cons_append, subtractSearch, ssub, ScalarReal.ofInt_eq, Int.cast_zero, ScalarReal.ltb_iff,
+      List.length_cons, List.sum_cons]
+    by_cases h : u - y < 0
+    · simp only [h, if_true, Option.some.injEq]
+      constructor
+      · intro hh; omega
+      · rintro ⟨h1, _⟩; linarith
+    · simp only [h, if_false]
+      have ih := subtractSearch_decomp x post pre (u - y) (i0 + 1) hpre' (by linarith)
+      have e : i0 + (pre.length + 1) = i0 + 1 + pre.length := by omega
+      rw [e, ih]
+      constructor
+      · rintro ⟨h1, h2⟩; exact ⟨by linarith, by linarith⟩
+      · rintro ⟨h1, h2⟩; exact ⟨by linarith, by linarith⟩
+
+/-- a probability row (non-negative, sum 1) and a draw `u < 1`: a state is always found -/
+theorem hmmState_defined (p : List ℝ) (u : ℝ) (hs : p.sum = 1) (hu0 : 0 ≤ u) (hu : u < 1) (dflt : Option Nat) :
+    ∃ i, hmmState p u dflt = .ok i ∧ i < p.length := by
+  unfold hmmState
+  cases h : subtractSearch u p 0 with
+  | some i => exact ⟨i, rfl, by have := subtractSearch_ge u p 0 i h; omega⟩
+  | none => have := subtractSearch_none p u 0 hu0 h; linarith
 end Bpp.Rand
